@@ -40,6 +40,17 @@ def load_known():
         return []
 
 
+def pmap(fn, items, procs=None, chunk=None):
+    """Parallel map over processes (fork): used for replaying many behaviours."""
+    import multiprocessing as mp
+    items = list(items)
+    if len(items) < 64:
+        return [fn(x) for x in items]
+    procs = procs or min(tlc.NCPU, 16)
+    with mp.get_context("fork").Pool(procs) as pool:
+        return pool.map(fn, items, chunksize=chunk or max(1, len(items) // (procs * 8)))
+
+
 class Check:
     def __init__(self, pid, argv=None):
         import argparse
